@@ -72,6 +72,13 @@ CLAIMS = {
         "note": "The cases are enumerated by forking (bounded shape: one corrupted site at a time). Trusted: E2 std models. Outside: THIS. references, group structure, combinations of several corrupted sites.",
         "technique": "bounded symbolic execution of MIR (fork per corrupted site), native replay of counterexamples and of every explored path",
     },
+    "C10": {
+        "engine": "E2-mirsym",
+        "text": "cleanup() is executed by the symbolic executor on template modules produced by the real parser: objects and typedefs are unchanged, a helper kept alive from exactly one reference site (14 sites, including the unusual ones) survives, every unreferenced helper is removed, a consistent file stays consistent under check(), and a second cleanup changes nothing (also for REF_UNIT chains).",
+        "design_ref": "DESIGN.md section 4 C10",
+        "note": "The cases are enumerated by forking (bounded shape: one keeping site per case, chains <= 3). Trusted: E2 std models. Outside: arbitrary reference graphs beyond these shapes, cycles of SUB_GROUP/SUB_FUNCTION.",
+        "technique": "bounded symbolic execution of MIR (fork per case), native replay of counterexamples and of every explored path",
+    },
 }
 
 _PENDING = "check not built yet in this revision of /verif (see DESIGN.md section 7 for the order of work)"
